@@ -43,8 +43,21 @@ Plain(toks) == [i \in 1..Len(toks) |-> toks[i].c]
 BaseToks == {Plain(NarseseToks(v)) : v \in BaseValues}
 InsertPool == {F.seL, F.compR, F.stL, F.stR, F.sep, F.cop["Inheritance"], F.punct["Judgement"], F.truthL, F.budL, <<"a">>, <<"1">>, <<" ">>}
 
+\* "env": items in their canonical order around one term, with well-formed and ill-formed number lists under EVERY punctuation
+\* (a question or quest written with a truth, an out-of-range entry behind a valid one, too many entries, an empty list, a lone dot)
+BadLists == {<<>>, <<"1.5">>, <<"0.5", "2">>, <<"-0.5">>, <<"1", "1", "1", "1">>, <<".">>, <<"0.5">>, <<"1", "0.9">>}
+FlatToks(toks) == Cat(Plain(toks))
+EnvTexts ==
+  {Cat(<<(IF b = <<"none">> THEN <<>> ELSE FlatToks(NumToks(b, F.budL, F.budSep, F.budR))),
+         FlatToks(TermToks(t)), F.punct[p], sp,
+         (IF st.k = "Eternal" THEN <<>> ELSE FlatToks(StampToks(st))), sp,
+         (IF tr = <<"none">> THEN <<>> ELSE FlatToks(NumToks(tr, F.truthL, F.truthSep, F.truthR)))>>)
+     : b \in {<<"none">>, <<"1.5">>, <<"0.5", "0.5", "7">>, <<"1", "1", "1", "1">>, <<"0.5">>},
+       t \in {W("a"), [k |-> "Inheritance", a |-> W("a"), b |-> QV("z")]}, sp \in {<<>>, <<" ">>},
+       p \in PunctKinds, st \in {[k |-> "Eternal"], [k |-> "Present"], [k |-> "Fixed", n |-> "5"]}, tr \in BadLists \cup {<<"none">>}}
+
 \* the text of a state: tokens joined; in mut mode `w` is a record [toks, cut] (cut = keep that many characters; 0 = all)
-TextOf == IF mode \in {"tok", "core", "tiny", "item"} THEN Cat([i \in 1..Len(w) |-> Alpha[w[i]]])
+TextOf == IF mode = "env" THEN w ELSE IF mode \in {"tok", "core", "tiny", "item"} THEN Cat([i \in 1..Len(w) |-> Alpha[w[i]]])
           ELSE LET full == Join(w.toks, IF w.spaced THEN <<" ">> ELSE <<>>) IN IF w.cut = 0 THEN full ELSE SubSeq(full, 1, Min2(w.cut, Len(full)))
 
 \* an even smaller alphabet (brackets, one separator, one name) for the deepest strings: cursor overshoot needs many unterminated brackets
@@ -54,6 +67,7 @@ Items == {i \in 1..Len(Alpha) : Alpha[i] \in {F.truthL, F.truthR, F.budL, F.budR
 \* four tracks: "item" over Items up to MAXTINY - 1;  "tok" grows over the whole alphabet up to MAXTOK tokens (the last token from Core in the quick tier),
 \* "core" over Core up to MAXCORE, "tiny" over Tiny up to MAXTINY
 Init == \/ mode \in {"tok", "core", "tiny", "item"} /\ w = <<>> /\ edits = 0
+        \/ mode = "env" /\ w \in EnvTexts /\ edits = 0
         \/ mode = "mut" /\ \E t \in BaseToks : \E sp \in BOOLEAN : w = [toks |-> t, cut |-> 0, spaced |-> sp] /\ edits = 0
 Grow == \/ /\ mode = "tok" /\ Len(w) < MAXTOK
            /\ \E i \in 1..Len(Alpha) : (Len(w) < MAXTOK - 1 \/ TIER = "thorough" \/ i \in Core) /\ w' = Append(w, i)
